@@ -7,6 +7,7 @@ package main
 
 import (
 	"fmt"
+	"math/rand"
 	"net"
 	"testing"
 	"time"
@@ -62,6 +63,8 @@ type c03Obs struct {
 	closedAt  time.Duration
 	peerEnded bool
 	stopped   string
+	// regOnPhantom: registrations existed on the probed phantom
+	regOnPhantom bool
 }
 
 func TestVerifC03(t *testing.T) {
@@ -77,23 +80,41 @@ func TestVerifC03(t *testing.T) {
 		Real:     []string{"cmd/application connManager.handleNewTCPConn (read loop, classification deadline, discard paths)", "min / prefix (all default prefixes) / obfs4 station transports", "RegistrationManager + ingest pipeline (registrations are ingested through HandleRegUpdates)", "client transports producing the genuine flights that are then corrupted"},
 		Stub:     []string{"TCP connection (simnet: segmentation, pacing, FIN/RST by the prober)", "liveness probes (table)", "detector (recorder)", "ZMQ (harness writes into the ingest channel)", "accept loop / original-destination lookup of handleNewConn (harness passes the phantom and closes the connection when the handler returns)"},
 		Rule: "enumerated: registry kind (3) x family (2) x content kind (6) x each of the 24 threshold lengths, other choices seeded; random: probe stream = {random bytes, constant fills (00/ff/80/40/7f/01) alone and after a static prefix, every default static prefix + garbage, protocol look-alikes, genuine min/prefix/obfs4-sized flights of a REGISTERED client with one bit flipped inside the tag, threshold lengths} x 24 lengths 0..16 KiB x random k-cut segmentation x pacing (0..4.9 s pauses) x prober behaviour {hold, FIN, RST} x registry {empty, registrations on other phantoms only, 1-4 registrations (all transports) on the probed phantom}. " +
-			"Each run is executed twice (twin): once with the generated content and once with uniformly random bytes of the same lengths, same schedule, same seeded deadline; the observable reaction must be identical. non-trivial = the probe reached the read loop with at least one registration on the probed phantom; distinct = (content kind, length, registry kind, prober behaviour, cuts, schedule) signatures",
+			"Each run is executed twice (twin): once with the generated content and once with uniformly random bytes of the same lengths, same schedule, same seeded deadline; the observable reaction must be identical. Runs with registrations on the probed phantom are executed a third time with an empty registry and must again react identically. non-trivial = the probe reached the read loop with at least one registration on the probed phantom; distinct = (content kind, length, registry kind, prober behaviour, cuts, schedule) signatures",
 		Assume: []string{"harness test files built with //go:debug asynctimerchan=0", "the prober never holds a valid tag: bit flips are applied inside the tag / mark bytes only"},
 	})
 }
 
 func c03Scenario(r *sim.Run) {
 	p0 := len(r.Tape.Rec)
-	a := c03Run(r, r.Tape, false)
+	a := c03Run(r, r.Tape, 0)
 	if r.Failed() || a == nil {
 		return
 	}
 	rec := append([]sim.Draw(nil), r.Tape.Rec[p0:]...)
 	r.Reseed(0)
 	r.Logf("---- twin run: same tape, random content ----")
-	b := c03Run(r, sim.NewReplayTape(rec), true)
+	b := c03Run(r, sim.NewReplayTape(rec), 1)
 	if r.Failed() || b == nil {
 		return
+	}
+	if a.regOnPhantom {
+		// second twin: the same probe of the same phantom, but no registration was ever made
+		// ("whether or not registrations exist for that phantom")
+		r.Reseed(0)
+		r.Logf("---- twin run: same tape, same probe, empty registry ----")
+		c := c03Run(r, sim.NewReplayTape(rec), 2)
+		if r.Failed() || c == nil {
+			return
+		}
+		// When the prober itself ends the connection, the moment the handler returns is set by the
+		// prober and by scheduling (the two variants run different code paths, so their
+		// schedules differ); the deadline decides only while the prober holds the connection open.
+		if a.sent != c.sent || a.returned != c.returned || (!a.peerEnded && !c.peerEnded && a.retAt != c.retAt) {
+			r.Fail("C03/registry-dependent-reaction", "the station reacted differently to the same probe depending on whether registrations exist for the phantom: with registrations{written=%d returned=%v at=%v} without{written=%d returned=%v at=%v}",
+				a.sent, a.returned, a.retAt, c.sent, c.returned, c.retAt)
+			return
+		}
 	}
 	if a.sent != b.sent || a.returned != b.returned || a.retAt != b.retAt || a.closedAt != b.closedAt {
 		r.Fail("C03/content-dependent-reaction", "the station reacted differently to the generated probe and to random bytes of the same lengths and pacing: probe{written=%d returned=%v at=%v closed=%v} random{written=%d returned=%v at=%v closed=%v}",
@@ -101,7 +122,9 @@ func c03Scenario(r *sim.Run) {
 	}
 }
 
-func c03Run(r *sim.Run, tp *sim.Tape, randomContent bool) *c03Obs {
+func c03Run(r *sim.Run, tp *sim.Tape, variant int) *c03Obs {
+	randomContent := variant == 1
+	emptyRegistry := variant == 2
 	s := hook.Install(tp)
 	defer s.Uninstall()
 	s.StayNum, s.StayDen = 1, 2
@@ -162,7 +185,9 @@ func c03Run(r *sim.Run, tp *sim.Tape, randomContent bool) *c03Obs {
 				return
 			}
 			clients = append(clients, c)
-			w.register(c.regMessage(nil))
+			if !emptyRegistry {
+				w.register(c.regMessage(nil))
+			}
 		}
 		w.settle()
 		// choose the probed phantom
@@ -281,6 +306,10 @@ func c03Run(r *sim.Run, tp *sim.Tape, randomContent bool) *c03Obs {
 		if v6 {
 			cliAddr = simnet.TCP("2001:db8:77::d5", 50123)
 		}
+		obs.regOnPhantom = regKind == 2 && !emptyRegistry
+		// the classification deadline is drawn from the process-global math/rand source when the
+		// handler starts: put the source into the same state in every variant of this run
+		rand.Seed(int64(r.Seed & 0x7fffffffffff))
 		pc = w.open(probePhantom, cliAddr)
 		err := stWriteSegments(pc.H, content, cuts, pauses)
 		switch {
